@@ -215,6 +215,26 @@ pub fn real_s2(u: &Unimock, x: u8) -> u64 {
 }
 
 // ---------------------------------------------------------------------------------------------
+// an argument whose Debug impl is user code that may panic
+
+pub struct DbgArg(pub u8);
+
+impl std::fmt::Debug for DbgArg {
+    fn fmt(&self, f: &mut std::fmt::Formatter<'_>) -> std::fmt::Result {
+        let fault = try_with_tl(|t| matches!(t.cur_fault, Some(Fault::DebugPanic))).unwrap_or(false);
+        if fault {
+            std::panic::panic_any(UserFault::Debug);
+        }
+        write!(f, "{}", self.0)
+    }
+}
+
+#[unimock(api = DbgTMock)]
+pub trait DbgT {
+    fn d0(&self, x: DbgArg) -> u64;
+}
+
+// ---------------------------------------------------------------------------------------------
 // lending (C13) and owned instrumented values (C12)
 
 use crate::values::*;
@@ -262,6 +282,7 @@ pub fn dispatch_ref(u: &Unimock, m: M, x: u8, y: u8) -> u64 {
         M::S0 => u.s0(x),
         M::S1 => u.s1(x),
         M::S2 => u.s2(x),
+        M::D0 => u.d0(DbgArg(x)),
         M::LendClone => {
             let _ = u.lend_clone(x);
             7
@@ -364,6 +385,7 @@ pub fn type_ids() -> &'static Vec<(TypeId, M)> {
             (TypeId::of::<SkipMock::s0>(), M::S0),
             (TypeId::of::<SkipMock::s1>(), M::S1),
             (TypeId::of::<SkipMock::s2>(), M::S2),
+            (TypeId::of::<DbgTMock::d0>(), M::D0),
             (TypeId::of::<LendMock::lend_a>(), M::LendA),
             (TypeId::of::<LendMock::lend_b>(), M::LendB),
             (TypeId::of::<LendMock::lend_mut>(), M::LendMut),
